@@ -434,7 +434,13 @@ func Concretise(d Doc, p Pool, n int) []byte {
 			b.WriteString(ind(4))
 			switch nd.K {
 			case "text":
-				b.WriteString(escText(p.Text[nd.A]))
+				t := escText(p.Text[nd.A])
+				if i := strings.Index(t, " "); (n/7)%2 == 1 && nl != "" && i > 0 {
+					// a long text wrapped over two source lines: the blank before the line break is part of the text,
+					// the indentation of the next line is not
+					t = t[:i+1] + nl + ind(5) + t[i+1:]
+				}
+				b.WriteString(t)
 			case "br":
 				b.WriteString("<br/>")
 			case "span":
